@@ -79,6 +79,16 @@ if rc == 0:
     base = json.load(open("/root/.vp/BASELINE.json"))["stable_pass"]
     stable = set(x.split("::")[1] for x in base)
     bad = [l for l in fails if l.split()[2] in stable]
+    # timing-sensitive tests flake on this loaded machine: a stable test that failed is re-run alone (3x, still
+    # with the patch applied) and only counts when it fails again
+    still = []
+    for l in bad:
+        name = l.split()[2]
+        rc2, out2 = sh("go test -count=3 -run '^%s$' %s 2>&1 | tail -5" % (name, " ".join(sorted(pk))))
+        if rc2 != 0 or "FAIL" in out2:
+            still.append(l)
+    res["flaky_rerun_passed"] = [l.split()[2] for l in bad if l not in still]
+    bad = still
     res["existing_tests_pass"] = not bad
     res["existing_fail_lines"] = fails[:10]
 clean()
